@@ -121,10 +121,11 @@ var RSAMethods = []string{
 
 // IDPConf is a generated IdP configuration.
 type IDPConf struct {
-	Base          string `json:"base"`                // e.g. https://idp.example.com
-	KeyName       string `json:"key_name,omitempty"`  // fixture; "" = idp
-	Signer        bool   `json:"signer,omitempty"`    // use an opaque crypto.Signer instead of Key
-	StaleKey      bool   `json:"stale_key,omitempty"` // with Signer: Key is ALSO set, to another (stale) private key; the Signer, whose public key the certificate carries, is what must be used
+	Base          string `json:"base"`                  // e.g. https://idp.example.com
+	MetaSuffix    string `json:"meta_suffix,omitempty"` // query / fragment carried by the metadata URL, which is the entity ID
+	KeyName       string `json:"key_name,omitempty"`    // fixture; "" = idp
+	Signer        bool   `json:"signer,omitempty"`      // use an opaque crypto.Signer instead of Key
+	StaleKey      bool   `json:"stale_key,omitempty"`   // with Signer: Key is ALSO set, to another (stale) private key; the Signer, whose public key the certificate carries, is what must be used
 	SigMethod     string `json:"sig_method,omitempty"`
 	Intermediates int    `json:"intermediates,omitempty"`
 	// configuration fields no clause of C05-C07 mentions: varied, never judged by themselves
@@ -163,7 +164,7 @@ func (c IDPConf) Keys() *fix.KeyPair {
 }
 
 // EntityID is the IdP's entity ID (its metadata URL).
-func (c IDPConf) EntityID() string { return c.Base + "/metadata" }
+func (c IDPConf) EntityID() string { return c.Base + "/metadata" + c.MetaSuffix }
 
 // SSOURL is the IdP's single sign-on URL.
 func (c IDPConf) SSOURL() string { return c.Base + "/sso" }
